@@ -268,6 +268,7 @@ Fixpoint hexec (s : script) (c : fctx) (hs : hstate) (ob : list Z) (l : lastsub)
       else if retcopy_copy_guard size then
         hexec rest c hs (ob ++ firstn (Z.to_nat size) (skipn (Z.to_nat off) (returndata l))) l tr lg H k
       else hexec rest c hs ob l tr lg H k
+  | SExtCode a off rest => hexec rest c hs (ob ++ m_ext_observation (habs H hs) a off) l tr lg H k
   | SIf cnd s1 s2 =>
       (* JUMPI: both sides followed = the true side is a create_branch copy pushed first, the
          false side is the state itself, pushed last and therefore explored first *)
